@@ -160,17 +160,29 @@ type refRow struct {
 
 type refTable struct {
 	rows    []*refRow
-	hdrMax  int
+	hdrMax  int // widest header the table has ever had
+	hdrCur  int // cells of the header it has now
 	det     map[int]*refRow
 	maxCols int
 }
 
+// ncols: the largest number of cells in the header (the current one) or in any row — the statement
 func (rt *refTable) ncols() int {
-	m := rt.hdrMax
+	m := rt.hdrCur
 	for _, r := range rt.rows {
 		if r.n > m {
 			m = r.n
 		}
+	}
+	return m
+}
+
+// ncolsEver: the same with the widest header the table has ever had — what the library keeps when a
+// header is replaced by a shorter one (recorded finding D26)
+func (rt *refTable) ncolsEver() int {
+	m := rt.ncols()
+	if rt.hdrMax > m {
+		m = rt.hdrMax
 	}
 	return m
 }
@@ -185,7 +197,14 @@ func checkObs(rt *refTable, obs string) (viol []string) {
 		viol = append(viol, fmt.Sprintf("NRows()=%s after %d rows/separators were added", f["nrows"], nrows))
 	}
 	if f["ncols"] != strconv.Itoa(ncols) {
-		viol = append(viol, fmt.Sprintf("NColumns()=%s, widest header/row has %d cells", f["ncols"], ncols))
+		if ever := rt.ncolsEver(); f["ncols"] == strconv.Itoa(ever) {
+			// the header was replaced by a shorter one and the column count stayed: the recorded finding;
+			// the rest of the observation is judged against the count the library keeps
+			pendingKnown = append(pendingKnown, "d26-columns-never-shrink")
+			ncols = ever
+		} else {
+			viol = append(viol, fmt.Sprintf("NColumns()=%s, widest header/row has %d cells", f["ncols"], ncols))
+		}
 	}
 	var ids []string
 	for _, r := range rt.rows {
@@ -275,6 +294,7 @@ func init() {
 				case k == 0:
 					n := r.n(5)
 					g.do("addheaders " + t + " " + pick(n))
+					rt.hdrCur = n
 					if n > rt.hdrMax {
 						rt.hdrMax = n
 					}
@@ -809,6 +829,66 @@ func init() {
 			nreg := 0
 			sameTime := r.chance(1, 2) // pairs at the same time are what exposes ordering
 			setCbs := map[int][2]string{}
+			// add-time oracle: what each building call must fire, from the registrations made so far
+			// (expAdd: as documented; expAddLib: without column-level callbacks on header cells, finding D29)
+			var expAdd, expAddLib []string
+			setOf := func(rg reg) string {
+				switch rg.owner[:1] {
+				case "t":
+					return map[string]string{"itself": "self", "cell": "cell", "row": "row"}[rg.target]
+				case "c":
+					return map[string]string{"itself": "self", "cell": "cell"}[rg.target]
+				case "r":
+					return map[string]string{"itself": "self", "row": "self", "cell": "cell"}[rg.target]
+				}
+				return "self"
+			}
+			fireAdd := func(owner, set, tgt string, lib bool) {
+				for _, rg := range regs {
+					if rg.ok && rg.when == "add" && rg.owner == owner && setOf(rg) == set {
+						expAdd = append(expAdd, fmt.Sprintf("%d@%s", rg.id, tgt))
+						if lib {
+							expAddLib = append(expAddLib, fmt.Sprintf("%d@%s", rg.id, tgt))
+						}
+					}
+				}
+			}
+			tOwn := fmt.Sprintf("t:%d", ti)
+			attach := func(rid, ncell int, header bool) {
+				ro := fmt.Sprintf("r:%d", rid)
+				if !header {
+					fireAdd(ro, "self", ro, true)
+				}
+				fireAdd(tOwn, "row", ro, true)
+				for i := 0; i < ncell; i++ {
+					xo := fmt.Sprintf("x:%d:%d", rid, i)
+					fireAdd(fmt.Sprintf("c:%d:%d", ti, i+1), "cell", xo, !header)
+					fireAdd(tOwn, "cell", xo, true)
+				}
+			}
+			do := func(op string) string {
+				toks := strings.Fields(op)
+				before := 0
+				if toks[0] == "rowadd" || toks[0] == "rowaddcopy" {
+					if rw := g.x.rows[idOf(toks[1])]; rw != nil {
+						before = len(rw.Cells())
+					}
+				}
+				res := g.do(op)
+				switch toks[0] {
+				case "rowadd", "rowaddcopy":
+					fireAdd("r:"+toks[1][1:], "cell", fmt.Sprintf("x:%s:%d", toks[1][1:], before), true)
+				case "addrow":
+					attach(idOf(toks[2]), len(g.x.rows[idOf(toks[2])].Cells()), false)
+				case "addrowitems":
+					attach(idOf(res), len(listOf(toks[2])), false)
+				case "appendnewrow":
+					attach(idOf(res), 0, false)
+				case "addheaders":
+					attach(idOf(res), len(listOf(toks[2])), true)
+				}
+				return res
+			}
 			register := func(owner string) {
 				nreg++
 				when, target := whens[(c+nreg)%4], targets[(c/4+nreg)%3]
@@ -840,24 +920,31 @@ func init() {
 				register(fmt.Sprintf("t:%d", ti))
 			}
 			if r.chance(1, 2) {
-				g.do("addheaders " + t + " " + mk(ncols))
+				do("addheaders " + t + " " + mk(ncols))
 			}
 			var rows []string
 			pre := g.do("newrow")
 			if r.chance(1, 2) {
 				register("r:" + pre[1:])
 			}
-			g.do("rowadd " + pre + " " + item)
-			g.do("addrow " + t + " " + pre)
+			do("rowadd " + pre + " " + item)
+			do("addrow " + t + " " + pre)
 			rows = append(rows, pre)
 			if r.chance(1, 2) {
 				register(fmt.Sprintf("c:%d:%d", ti, r.n(g.x.tables[ti].NColumns()+1)))
 			}
 			for i := 0; i < r.n(3); i++ {
 				if r.chance(1, 4) {
-					rows = append(rows, g.do("addsep "+t))
+					rows = append(rows, do("addsep "+t))
+				} else if r.chance(1, 4) {
+					// a row the table makes and attaches itself, filled afterwards
+					nr := do("appendnewrow " + t)
+					rows = append(rows, nr)
+					if r.chance(2, 3) {
+						do("rowadd " + nr + " " + item)
+					}
 				} else {
-					rows = append(rows, g.do("addrowitems "+t+" "+mk(r.n(ncols+1))))
+					rows = append(rows, do("addrowitems "+t+" "+mk(r.n(ncols+1))))
 				}
 			}
 			if !early || r.chance(1, 2) {
@@ -869,7 +956,7 @@ func init() {
 			if c%10 == 3 {
 				// a table past 32 and 64 columns, with callbacks on columns on either side of those marks
 				wide := []int{33, 40, 64, 65, 70}[(c/10)%5]
-				rows = append(rows, g.do("addrowitems "+t+" "+mk(wide)))
+				rows = append(rows, do("addrowitems "+t+" "+mk(wide)))
 				for _, n := range []int{31, 32, 33, 63, 64, 65, wide} {
 					if n <= wide {
 						register(fmt.Sprintf("c:%d:%d", ti, n))
@@ -879,12 +966,12 @@ func init() {
 			if r.chance(1, 4) {
 				// callbacks on the currently last column, then growth past the initial capacity of 10
 				register(fmt.Sprintf("c:%d:%d", ti, g.x.tables[ti].NColumns()))
-				rows = append(rows, g.do("addrowitems "+t+" "+mk(10+r.n(4))))
+				rows = append(rows, do("addrowitems "+t+" "+mk(10+r.n(4))))
 			}
 			if r.chance(1, 4) {
 				// a cell that already carries callbacks is added BY VALUE twice; each copy then gets one more
 				proto := g.do("newrow")
-				g.do("rowadd " + proto + " " + item)
+				do("rowadd " + proto + " " + item)
 				for k := 0; k < 1+r.n(3); k++ {
 					register(fmt.Sprintf("x:%s:0", proto[1:]))
 				}
@@ -900,17 +987,17 @@ func init() {
 						}
 					}
 				}
-				g.do("rowaddcopy " + dst + " " + y)
-				g.do("rowaddcopy " + dst + " " + y)
-				g.do("addrow " + t + " " + dst)
+				do("rowaddcopy " + dst + " " + y)
+				do("rowaddcopy " + dst + " " + y)
+				do("addrow " + t + " " + dst)
 				rows = append(rows, dst)
 				register(fmt.Sprintf("x:%s:0", dst[1:]))
 				register(fmt.Sprintf("x:%s:1", dst[1:]))
 			}
 			if r.chance(1, 3) {
-				late := g.do("addrowitems " + t + " " + mk(r.n(ncols+1)))
+				late := do("addrowitems " + t + " " + mk(r.n(ncols+1)))
 				rows = append(rows, late)
-				g.do("rowadd " + late + " " + item)
+				do("rowadd " + late + " " + item)
 			}
 			// the object handed to a callback is the live one: what a set-property callback wrote is
 			// readable afterwards through the table
@@ -932,14 +1019,27 @@ func init() {
 					}
 				}
 			}
-			readBack(g.do("events")) // add-time events (also compared Go vs model)
+			addEv := g.do("events") // add-time events (also compared Go vs model)
+			if addEv != joinC(expAdd) {
+				if addEv == joinC(expAddLib) {
+					pendingKnown = append(pendingKnown, "d29-header-cells-no-column-callbacks")
+				} else {
+					viol = append(viol, fmt.Sprintf("add-time callbacks fired as %s, the building calls made so far require %s", addEv, joinC(expAdd)))
+				}
+			}
+			readBack(addEv)
 			passes := 1 + r.n(2)
 			for p := 0; p < passes; p++ {
 				g.do("invoke " + t)
 				got := g.do("events")
 				want := joinC(expectedRenderLog(g, ti, regs))
 				if got != want {
-					viol = append(viol, fmt.Sprintf("render pass %d: callbacks fired as %s, documented order gives %s", p+1, got, want))
+					if got == joinC(expectedRenderLogH(g, ti, regs, false)) {
+						// exactly the documented order minus the column-level cell callbacks on header cells
+						pendingKnown = append(pendingKnown, "d29-header-cells-no-column-callbacks")
+					} else {
+						viol = append(viol, fmt.Sprintf("render pass %d: callbacks fired as %s, documented order gives %s", p+1, got, want))
+					}
 				}
 				readBack(got)
 			}
@@ -961,6 +1061,12 @@ func init() {
 
 // expectedRenderLog: the documented render-time order, for the registrations that were accepted.
 func expectedRenderLog(g *Gen, ti int, regs []reg) []string {
+	return expectedRenderLogH(g, ti, regs, true)
+}
+
+// expectedRenderLogH: the documented order; with headerCols false, as the library has it — the cells of the
+// header row receive no column-level cell callbacks (recorded finding D29)
+func expectedRenderLogH(g *Gen, ti int, regs []reg, headerCols bool) []string {
 	tb := g.x.tables[ti]
 	var out []string
 	// callback lists per (owner, target-set, time)
@@ -1002,7 +1108,7 @@ func expectedRenderLog(g *Gen, ti int, regs []reg) []string {
 		for i := 0; i < cells; i++ {
 			xo := fmt.Sprintf("x:%d:%d", rid, i)
 			co := fmt.Sprintf("c:%d:%d", ti, i+1)
-			isC := func(o string) bool { return !isHeader && o == co }
+			isC := func(o string) bool { return (headerCols || !isHeader) && o == co }
 			fire(isT, "cell", "pre", xo)
 			fire(isC, "cell", "pre", xo)
 			fire(isR, "cell", "pre", xo)
@@ -1057,6 +1163,21 @@ func snapshot(g *Gen, t string) string {
 		for k := 1; k <= manyProps; k++ {
 			b.WriteString("|" + g.do(fmt.Sprintf("getprop x:%d:0 u%d", id, k)))
 		}
+		// every further cell of the row, and the row itself, for the keys any stream sets on them
+		ncell := 0
+		if cs, ok := g.x.cellsOfRow(id); ok {
+			ncell = len(cs)
+		}
+		for ci := 1; ci < ncell; ci++ {
+			for _, k := range []string{"u1", "u2", "u3", "align", "skip"} {
+				b.WriteString("|" + g.do(fmt.Sprintf("getprop x:%d:%d %s", id, ci, k)))
+			}
+		}
+		if g.x.rows[id] != nil {
+			for _, k := range []string{"u1", "u2", "u3", "align", "skip"} {
+				b.WriteString("|" + g.do(fmt.Sprintf("getprop r:%d %s", id, k)))
+			}
+		}
 	}
 	for _, k := range []string{"u1", "u2", "align", "skip"} {
 		b.WriteString("|" + g.do(fmt.Sprintf("getprop t:%d %s", idOf(t), k)))
@@ -1087,6 +1208,17 @@ func init() {
 			if r.chance(1, 2) {
 				g.do(fmt.Sprintf("setprop t:%d u1 u77", idOf(t)))
 				g.do(fmt.Sprintf("setprop c:%d:0 u2 u78", idOf(t)))
+			}
+			if r.chance(1, 2) {
+				for _, rw := range g.x.tables[idOf(t)].AllRows() {
+					id := g.x.rowID[rw]
+					if r.chance(1, 2) {
+						g.do(fmt.Sprintf("setprop r:%d u%d u%d", id, 1+r.n(3), 300+id))
+					}
+					if n := len(rw.Cells()); n > 1 {
+						g.do(fmt.Sprintf("setprop x:%d:%d %s %s", id, 1+r.n(n-1), r.pick([]string{"u1", "u2", "align"}), r.pick([]string{"u5", "a2", "u9"})))
+					}
+				}
 			}
 			if c%4 == 1 {
 				// a cell (and a header cell) with many properties of the caller's own: renders add theirs on top
@@ -1149,9 +1281,6 @@ func init() {
 									}
 								}
 								rawDecor = showDecor(d)
-								// how a never-completed decoration renders (or fails to) is no property's business;
-								// that it does so the same way every time is, and the oracle below keeps saying so
-								g.do("leftdomain")
 							}
 							g.do("setdecor " + w + " " + rawDecor)
 							key = "text/raw"
